@@ -554,7 +554,7 @@ Proof.
   apply Forall_app in NE. destruct NE as [NE1 NE2]. inversion NE2 as [|? ? Hne _]; subst.
   destruct c as [|x t]; [contradiction|]. cbn in Hc.
   assert (Hs : src = concat (p0 :: pre') ++ x :: (t ++ concat rest')).
-  { rewrite <- (chars_of_concat_id src), H, concat_app. cbn [concat]. rewrite <- app_assoc. reflexivity. }
+  { rewrite <- (chars_of_concat_id src), H, concat_app. cbn [concat]. rewrite <- !app_assoc. reflexivity. }
   unfold clen. unfold is_char_boundary.
   destruct (length (concat (p0 :: pre'))) eqn:EL; [reflexivity|].
   rewrite <- EL. rewrite Hs at 1. rewrite nth_error_app_len. rewrite Hc. reflexivity.
